@@ -148,7 +148,7 @@ def main():
     topos = families.curated()
     timeout = 20000
     if args.thorough:
-        topos = topos + families.E(3, 4) + families.E(4, 4)[::6] + families.random_topos(args.seed, 30)
+        topos = topos + families.E(4, 5) + families.E(3, 4, maxN=5)[::2] + families.random_topos(args.seed, 30)
         timeout = 60000
     items = [(t.to_json(), ("array", "scalar")[k % 2], args.seed + k, timeout, ("numpy", "SX", "MX")) for k, t in enumerate(topos)
              if not args.only or args.only in t.name]
@@ -158,7 +158,7 @@ def main():
         tot, levels, samples, st, len(items),
         "pair = (encoding, output component, input/parameter scalar not in the oracle's variable set); pairs whose input does not occur in the implementation "
         "term close by congruence, the others are decided by z3 (self-composition); plus reachability twins (allowed input must be able to change the output: sat expected)",
-        {"bounds": {"family": "K (18 curated)" + (" + E(3,4) + every 6th of E(4,4) + R(seed,30)" if args.thorough else ""), "values": "admissible domain for both copies"},
+        {"bounds": {"family": "K (20 curated)" + (" + E(4,5) + every 2nd of E(3,4) with up to 5 segments + R(seed,30)" if args.thorough else ""), "values": "admissible domain for both copies"},
          "pairs": extra.get("pairs", 0), "pairs_closed_by_congruence": extra.get("pairs_closed_by_congruence", 0), "pairs_to_solver": extra.get("pairs_to_solver", 0),
          "vacuity_twins": {"sat": extra.get("twins_sat", 0), "total": extra.get("twins_total", 0)},
          "functions_encoded": ["Network.step and everything it calls (NumPy symbolic)", "Engine.to_function IR (SX, MX)"]})
